@@ -111,6 +111,28 @@ func nonInflating(p *Prog, e *Env, v ssa.Value, self string, depth int) (string,
 		if a, pe := e.actual(x); a != nil {
 			return nonInflating(p, pe, a, self, depth)
 		}
+		// an output-building helper that is handed the gas: every call site must hand it a non-inflating value
+		if e.Parent == nil && isUnsignedT(x.Type()) && !isExportedAPI(e.Fn) && depth <= 2 && len(p.Callers[e.Fn]) > 0 {
+			var cls []string
+			for _, cs := range p.Callers[e.Fn] {
+				if !p.Src(cs.Parent()) {
+					continue
+				}
+				sub := p.Env(cs.Parent()).Sub(cs, e.Fn)
+				a, pe := sub.actual(x)
+				if a == nil {
+					return "cannot bind parameter " + x.Name() + " at " + p.InstrPos(cs), false
+				}
+				s, ok := nonInflating(p, pe, a, "", depth+1)
+				if !ok {
+					return "passed by " + FuncName(cs.Parent()) + ": " + s, false
+				}
+				cls = append(cls, s)
+			}
+			if len(cls) > 0 {
+				return "supplied by every caller as {" + strings.Join(uniq(cls), " | ") + "}", true
+			}
+		}
 	}
 	l := e.LE(v)
 	// base - Σ non-negative atoms, base ∈ {GasProvided, the field itself}
